@@ -114,6 +114,8 @@ let item16 v = match lst v with
   | [k; ib; ie; body] when str k = "TB" -> RefExpand16.TransBlock (str ib, str ie, List.map titem (lst body))
   | [k; s] when str k = "X" -> RefExpand16.Text (str s)
   | [k; l] when str k = "I" -> RefExpand16.InitLine (uline l)
+  | [k; pre; ee] when str k = "T" -> RefExpand16.TableLine (str pre, str ee = "1")
+  | [k; l] when str k = "U" -> RefExpand16.UserLine (uline l)
   | [k; kd; body] when str k = "B" -> RefExpand16.Block (ekind kd, "", "", ulines body)
   | [k; kd; ib; ie; body] when str k = "B" -> RefExpand16.Block (ekind kd, str ib, str ie, ulines body)
   | [k; body] when str k = "S" -> RefExpand16.SigBlock ("", "", ulines body)
@@ -150,3 +152,19 @@ let () =
   register "cs.block_lines" (function [] -> vstrs CsRender.cs_block_lines | _ -> failwith "arity");
   register "cs.block_ref" (function [tt; structs; protos; msgs] ->
       S (CsRender.cs_block_ref (rows tt) (strs structs) (strs protos) (strs msgs)) | _ -> failwith "arity")
+
+(* C09 bridge: the boost::sml table printer of the engine model, and the text of SmlTT.gen_sml *)
+let () =
+  register "sml.print" (function [ws; ee; tt] ->
+      (match EngineSM.tt_model (rows tt) [] [] [] with
+       | Some m -> S (String.concat "" (EngineSM.sml_print m.EngineSM.sm_states m.EngineSM.sm_rows (str ee = "1") (str ws)))
+       | None -> failwith "tt_model") | _ -> failwith "arity");
+  register "sml.text" (function [ws; ee; tt] ->
+      S (SmlRender.sml_text (str ws) (str ee = "1") (EngineDomain16.table_of (rows tt))) | _ -> failwith "arity")
+
+(* the whole shipped TEMPLATEInternals.cs *)
+let () =
+  register "cs.file_ref" (function [tt; structs; protos; msgs; a] ->
+      S (CsRender.cs_file_ref (rows tt) (strs structs) (strs protos) (strs msgs) (dict a)) | _ -> failwith "arity");
+  register "cs.file_wf" (function [tt; structs; protos; msgs; a] ->
+      vbool (CsRender.cs_file_wf (rows tt) (strs structs) (strs protos) (strs msgs) (dict a)) | _ -> failwith "arity")
